@@ -2,14 +2,24 @@
 
    translator/patternfuncs.py turns the bodies of
      _n_onset_midi, _occurrence_intersection, _compute_score_matrix, standard_FPR, establishment_FPR, occurrence_FPR,
-     three_layer_FPR (and its nested helpers), first_n_three_layer_P, first_n_target_proportion_R
+     three_layer_FPR (and its three nested helpers), first_n_three_layer_P, first_n_target_proportion_R
    into programs of the Python / NumPy sub-language of Model/PatExp.v (Gen/PatternGen.v, regenerated on every check).
    This file proves, for ALL annotations (lists of patterns = lists of occurrences = lists of (onset, midi) pairs of
    rationals) and all values of the numeric parameters, that running each generated program gives exactly what the model
-   function of Model/Pattern.v gives, including which exception is raised and the scalar type of every result. The
-   callees of a function are instantiated by the MODEL's functions (Model/PatExpPattern.v: pat_ext), so the theorems
-   compose along the call graph; call sites are bound to the callee signatures read from the source in the same run
-   (pat_sigs; their shape is pinned by pat_sigs_expected).
+   function of Model/Pattern.v gives, including which exception is raised and the scalar type (Python float / int,
+   np.float64) of every component of the result (Model/PatExpPattern.v: standard_pv, establishment_pv, ...; the
+   corollaries [..._view] state the same thing on the numbers alone).
+
+   Structure
+     * section [Ties]: every tie is proved for an arbitrary meaning [ext] of the callees, under the equations about [ext]
+       that the body in question needs (hypotheses [ext_validate], [ext_inter], ...); call sites are bound to the callee
+       signatures read from the source in the same run ([pat_sigs]; their shape is pinned by [pat_sigs_expected]);
+     * first instance ([pat_ext], theorems [<function>_tie]): the callees are the MODEL's functions;
+     * second instance ([prog_ext], theorems [<function>_closed], [pattern_module_closed]): the callees are the GENERATED
+       programs themselves (bounded call depth), only pattern.validate (Proofs/ValidatorsTie.v) and util.f_measure
+       (Proofs/ScalarFuncsTie.v) keep the model's meaning: the module as a whole, as translated, computes the model.
+   Loops are handled by one generic lemma ([fill_loop]: a loop that fills the cells of a row / the rows of a matrix and
+   threads an accumulator) plus an induction for the break / continue loop of standard_FPR.
    Facts about generated code are obtained by evaluation of the generated terms only. *)
 From Coq Require Import String.
 From Coq Require Import List Bool Arith ZArith QArith Qabs Qminmax Qreduction Lia Lqa.
@@ -57,6 +67,18 @@ Local Arguments sub_op a b : simpl nomatch.
 Local Arguments and_op a b : simpl nomatch.
 Local Arguments seq_item l i : simpl nomatch.
 
+(* ====================================================================================================================
+   The ties are proved for ANY meaning [ext] of the callees that satisfies, for the callees a body actually uses, the
+   equations stated as hypotheses below ([ext_validate], [ext_fm], [ext_inter], ...): first instantiated with the model's
+   functions ([pat_ext], theorems without suffix after the section), then with the generated programs themselves
+   ([prog_ext], theorems [..._closed]), so that "the callees are the model's functions" is proved rather than assumed for
+   every function of the module except pattern.validate (Proofs/ValidatorsTie.v) and util.f_measure
+   (Proofs/ScalarFuncsTie.v).
+   ==================================================================================================================== *)
+Section Ties.
+Variable ext : string -> list pv -> out pv.
+Local Notation runx := (run_fun pat_sigs ext).
+
 Lemma concatM_cons r l : concatM (r :: l) = (a <~ r ;; b <~ concatM l ;; OK (a ++ b)). Proof. reflexivity. Qed.
 Lemma concatM_ok {A} (g : A -> list pv) l : concatM (map (fun x => OK (g x)) l) = OK (concat (map g l)).
 Proof. induction l as [|x t IH]; [reflexivity|]. cbn [map]. rewrite concatM_cons, IH. reflexivity. Qed.
@@ -70,9 +92,9 @@ Proof.
   rewrite concat_app, app_length. f_equal. clear. induction p as [|o p IH]; [reflexivity|]. cbn [map concat]. rewrite !app_length, IH. f_equal.
   clear. induction o as [|n o IH]; [reflexivity|]. cbn [map concat app Datatypes.length]. rewrite IH. reflexivity.
 Qed.
-Theorem n_onset_midi_tie : forall ps, run gen__n_onset_midi [v_pats ps] = OK (VInt (Z.of_nat (n_onset_midi ps))).
+Theorem n_onset_midi_tie_g : forall ps, runx gen__n_onset_midi [v_pats ps] = OK (VInt (Z.of_nat (n_onset_midi ps))).
 Proof.
-  intros. unfold run, run_fun. cbn. unfold v_pats. cbn. rewrite map_map.
+  intros. unfold run_fun. cbn. unfold v_pats. cbn. rewrite map_map.
   erewrite (map_ext' _ (fun p : pattern => OK (concat (map (fun o : occ => concat (map (fun n => [v_note n]) o)) p)))).
   2:{ intros p. cbn. rewrite map_map.
       erewrite (map_ext' _ (fun o : occ => OK (concat (map (fun n => [v_note n]) o)))).
@@ -129,18 +151,18 @@ Lemma builtin_set_notes l : builtin "set" [VList (map v_note l)] [] = OK (VSet (
 Proof. unfold builtin. cbn. rewrite hashable_notes, set_of_notes. reflexivity. Qed.
 Lemma bitand_notes a b : bin_op BitAnd (VSet (map v_note a)) (VSet (map v_note b)) = OK (VSet (map v_note (ninter a b))).
 Proof. unfold bin_op, and_op. rewrite set_inter_notes. reflexivity. Qed.
-Theorem occurrence_intersection_tie : forall P Qo, exists s,
-  run gen__occurrence_intersection [v_occ P; v_occ Qo] = OK (VSet (map v_note s)) /\ map canon s = inter_set P Qo.
+Theorem occurrence_intersection_tie_g : forall P Qo, exists s,
+  runx gen__occurrence_intersection [v_occ P; v_occ Qo] = OK (VSet (map v_note s)) /\ map canon s = inter_set P Qo.
 Proof.
   intros. exists (ninter (ndedup P) (ndedup Qo)). split; [|apply canon_ninter].
-  unfold run, run_fun. cbn. rewrite !map_map. cbn.
+  unfold run_fun. cbn. rewrite !map_map. cbn.
   rewrite (concatM_ok (fun n => [v_note n])), concat_single. cbn. rewrite builtin_set_notes. cbn.
   rewrite !map_map. cbn. rewrite (concatM_ok (fun n => [v_note n])), concat_single. cbn. rewrite builtin_set_notes. cbn.
   rewrite set_inter_notes. reflexivity.
 Qed.
-Corollary occurrence_intersection_len : forall P Qo, exists s,
-  run gen__occurrence_intersection [v_occ P; v_occ Qo] = OK (VSet s) /\ Datatypes.length s = inter_count P Qo.
-Proof. intros. destruct (occurrence_intersection_tie P Qo) as (s & E & H). exists (map v_note s). split; [exact E|].
+Corollary occurrence_intersection_len_g : forall P Qo, exists s,
+  runx gen__occurrence_intersection [v_occ P; v_occ Qo] = OK (VSet s) /\ Datatypes.length s = inter_count P Qo.
+Proof. intros. destruct (occurrence_intersection_tie_g P Qo) as (s & E & H). exists (map v_note s). split; [exact E|].
   unfold inter_count. rewrite <- H, !map_length. reflexivity. Qed.
 
 
@@ -210,15 +232,14 @@ Proof. intros Hc Hv. unfold set_item. rewrite Hv.
 (* ---------- _compute_score_matrix ---------- *)
 Definition cell (oP oQ : occ) : res Q :=
   if Pattern.is_nil oP && Pattern.is_nil oQ then Raise ZeroDivisionError else Ok (card_score oP oQ).
-Lemma ext_inter a b : pat_ext "_occurrence_intersection" [v_occ a; v_occ b] = OK (VSet (map v_note (inter_set a b))).
-Proof. unfold pat_ext. cbn. rewrite !d_occ_v. reflexivity. Qed.
+Hypothesis ext_inter : forall a b, exists s, ext "_occurrence_intersection" [v_occ a; v_occ b] = OK (VSet s) /\ length s = inter_count a b.
 
 Definition sm_env (vP vQ vm denom occQ iQ occP iP sm : pv) : env :=
   [("P", vP); ("Q", vQ); ("similarity_metric", vm); ("denom", denom); ("occ_Q", occQ); ("iQ", iQ); ("occ_P", occP); ("iP", iP);
    ("sm", sm)]%string.
 Definition sm_outer_body : list stmt := for_body (f_body gen__compute_score_matrix).
 Definition sm_inner_body : list stmt := for_body sm_outer_body.
-Definition X := exec pat_sigs pat_ext.
+Definition X := exec pat_sigs ext.
 Lemma sm_inner_step vP vQ m oP A done x0 rest D oQ c d0 q0 j0 :
   c = length done + S (length rest) ->
   for_step (run_block X) ["iQ"; "occ_Q"]%string sm_inner_body (VTup [VInt (Z.of_nat (length done)); v_occ oQ])
@@ -231,10 +252,11 @@ Lemma sm_inner_step vP vQ m oP A done x0 rest D oQ c d0 q0 j0 :
     else SExn ValueError.
 Proof.
   intros Hc. unfold for_step, X, sm_inner_body, sm_outer_body, sm_env, cell, cardinality_score. cbn.
-  destruct (seqb m _); [|reflexivity]. cbn. rewrite !map_length. unfold call. sigs. cbn. rewrite ext_inter. cbn.
-  rewrite !map_length, zmax_nat, !zq_nat, div_int_float, qnat_eqb0, max_nil_iff.
+  destruct (seqb m _); [|reflexivity]. cbn. rewrite !map_length. unfold call. sigs. cbn.
+  destruct (ext_inter oP oQ) as (s & -> & Ls). cbn.
+  rewrite ?map_length, Ls, zmax_nat, !zq_nat, div_int_float, qnat_eqb0, max_nil_iff.
   destruct (Pattern.is_nil oP && Pattern.is_nil oQ); [reflexivity|]. cbn.
-  erewrite (set_mat_cell c A done x0 rest D _ _ Hc) by reflexivity. unfold card_score, inter_count. reflexivity.
+  erewrite (set_mat_cell c A done x0 rest D _ _ Hc) by reflexivity. unfold card_score. reflexivity.
 Qed.
 
 Lemma rmapM_cons {A B} (f : A -> res B) a t : rmapM f (a :: t) = (b <- f a ;; bs <- rmapM f t ;; Ok (b :: bs)). Proof. reflexivity. Qed.
@@ -313,10 +335,10 @@ Proof. unfold score_matrix_res, score_matrix. induction p as [|oP t IH]; [reflex
 
 Lemma np_zeros2 a b : builtin "np.zeros" [VTup [VInt (Z.of_nat a); VInt (Z.of_nat b)]] [] = OK (VMat b (repeat (repeat 0%Q b) a)).
 Proof. unfold builtin. cbn. rewrite !zle_nat, !Nat2Z.id. reflexivity. Qed.
-Theorem compute_score_matrix_tie : forall p q m, seqb m cardinality_score = true ->
-  run gen__compute_score_matrix [v_pat p; v_pat q; VStr m] = lift (VMat (length q)) (score_matrix_res p q).
+Theorem compute_score_matrix_tie_g : forall p q m, seqb m cardinality_score = true ->
+  runx gen__compute_score_matrix [v_pat p; v_pat q; VStr m] = lift (VMat (length q)) (score_matrix_res p q).
 Proof.
-  intros p q m Hm. unfold run, run_fun. cbn [length f_params gen__compute_score_matrix Nat.eqb]. unfold exec_block.
+  intros p q m Hm. unfold run_fun. cbn [length f_params gen__compute_score_matrix Nat.eqb]. unfold exec_block.
   rewrite (cut_at_for (f_body gen__compute_score_matrix)) at 1.
   rewrite run_block_app. remember (from_for (f_body gen__compute_score_matrix)) as tl eqn:Etl.
   cbn. rewrite !map_length, np_zeros2. cbn.
@@ -326,10 +348,10 @@ Proof.
   rewrite mat_res_spec. destruct (score_matrix_res p q); reflexivity.
 Qed.
 (* any other metric name: ValueError as soon as there is a pair of occurrences to score *)
-Theorem compute_score_matrix_other_metric : forall oP p oQ q m, seqb m cardinality_score = false ->
-  run gen__compute_score_matrix [v_pat (oP :: p); v_pat (oQ :: q); VStr m] = EXN ValueError.
+Theorem compute_score_matrix_other_metric_g : forall oP p oQ q m, seqb m cardinality_score = false ->
+  runx gen__compute_score_matrix [v_pat (oP :: p); v_pat (oQ :: q); VStr m] = EXN ValueError.
 Proof.
-  intros oP p oQ q m Hm. unfold run, run_fun. cbn [length f_params gen__compute_score_matrix Nat.eqb]. unfold exec_block.
+  intros oP p oQ q m Hm. unfold run_fun. cbn [length f_params gen__compute_score_matrix Nat.eqb]. unfold exec_block.
   rewrite (cut_at_for (f_body gen__compute_score_matrix)) at 1.
   rewrite run_block_app. remember (from_for (f_body gen__compute_score_matrix)) as tl eqn:Etl.
   cbn. rewrite !map_length, np_zeros2. cbn.
@@ -338,7 +360,6 @@ Proof.
     (VMat (S (length q)) ((0%Q :: repeat 0%Q (length q)) :: repeat (0%Q :: repeat 0%Q (length q)) (length p))) Hm) as E.
   unfold X, sm_inner_body, sm_outer_body, sm_env in E. cbn [map] in E. cbn [map]. use_loop E. reflexivity.
 Qed.
-Print Assumptions compute_score_matrix_tie.
 
 
 (* ---------- a generic loop that fills the cells of a row (or the rows of a matrix) and threads an accumulator ---------- *)
@@ -386,13 +407,10 @@ Proof. induction l as [|y t IH]; intros k; [reflexivity|]. cbn [sfill]. rewrite 
   rewrite IH. destruct (rmapM g t); reflexivity. Qed.
 
 
-Lemma ext_validate r e : pat_ext "validate" [v_pats r; v_pats e] = lift (fun _ => VNone) (validate r e).
-Proof. unfold pat_ext. cbn. rewrite !d_pats_v. reflexivity. Qed.
-Lemma ext_n_onset ps : pat_ext "_n_onset_midi" [v_pats ps] = OK (VInt (Z.of_nat (n_onset_midi ps))).
-Proof. unfold pat_ext. cbn. rewrite d_pats_v. reflexivity. Qed.
-Lemma ext_csm p q m : seqb m cardinality_score = true ->
-  pat_ext "_compute_score_matrix" [v_pat p; v_pat q; VStr m] = lift (VMat (length q)) (score_matrix_res p q).
-Proof. intros Hm. unfold pat_ext. cbn. rewrite Hm, !d_pat_v. reflexivity. Qed.
+Hypothesis ext_validate : forall r e, ext "validate" [v_pats r; v_pats e] = lift (fun _ => VNone) (validate r e).
+Hypothesis ext_n_onset : forall ps, ext "_n_onset_midi" [v_pats ps] = OK (VInt (Z.of_nat (n_onset_midi ps))).
+Hypothesis ext_csm : forall p q m, seqb m cardinality_score = true ->
+  ext "_compute_score_matrix" [v_pat p; v_pat q; VStr m] = lift (VMat (length q)) (score_matrix_res p q).
 Lemma cmp_eq_nat0 n : cmp_op Eq (VInt (Z.of_nat n)) (VInt 0) = OK (VBool (Nat.eqb n 0)).
 Proof. unfold cmp_op. cbn. rewrite zq_nat. change (zq 0) with 0%Q. rewrite qnat_eqb0. reflexivity. Qed.
 Lemma np_max_mat c m : builtin "np.max" [VMat c m] [] = if PatExp.is_nil (concat m) then EXN ValueError else OK (VNpF (maxl (concat m))).
@@ -555,14 +573,14 @@ Proof. intros H. rewrite np_mean_vec. unfold col_maxes. rewrite is_nil_map', (is
 Lemma np_mean_rows {A B} (sc : A -> B -> Q) rs es : rs <> [] ->
   builtin "np.mean" [VVec (row_maxes sc rs es)] [] = OK (VNpF (qmean (row_maxes sc rs es))).
 Proof. intros H. rewrite np_mean_vec. unfold row_maxes. rewrite is_nil_map', (is_nil_ne _ H). reflexivity. Qed.
-Lemma ext_fm p r b : pat_ext "util.f_measure" [p; r; b] = fm_ext p r b. Proof. reflexivity. Qed.
+Hypothesis ext_fm : forall p r b, ext "util.f_measure" [p; r; b] = fm_ext p r b.
 Lemma maxes_nonneg {A B} (sc : A -> B -> Q) rs es : (forall r e, 0 <= sc r e <= 1)%Q ->
   (0 <= qmean (col_maxes sc rs es))%Q /\ (0 <= qmean (row_maxes sc rs es))%Q.
 Proof. intros H. split; [apply (qmean_01 _ (col_maxes_01 sc rs es H))|apply (qmean_01 _ (row_maxes_01 sc rs es H))]. Qed.
-Theorem establishment_FPR_tie : forall ref est m, seqb m cardinality_score = true ->
-  run gen_establishment_FPR [v_pats ref; v_pats est; VStr m] = establishment_pv ref est.
+Theorem establishment_FPR_tie_g : forall ref est m, seqb m cardinality_score = true ->
+  runx gen_establishment_FPR [v_pats ref; v_pats est; VStr m] = establishment_pv ref est.
 Proof.
-  intros ref est m Hm. unfold run, run_fun. cbn [length f_params gen_establishment_FPR Nat.eqb]. unfold exec_block.
+  intros ref est m Hm. unfold run_fun. cbn [length f_params gen_establishment_FPR Nat.eqb]. unfold exec_block.
   rewrite (cut_at_for (f_body gen_establishment_FPR)) at 1.
   rewrite run_block_app. remember (from_for (f_body gen_establishment_FPR)) as tl eqn:Etl.
   unfold establishment_pv, establishment_FPR.
@@ -586,7 +604,6 @@ Proof.
   rewrite (fm_ext_np _ _ Hp Hq). unfold np_fpr, mk_fpr.
   destruct (qeqb (qmean (col_maxes est_score ref est)) 0 && qeqb (qmean (row_maxes est_score ref est)) 0); reflexivity.
 Qed.
-Print Assumptions establishment_FPR_tie.
 
 
 (* ---------- occurrence_FPR ---------- *)
@@ -830,10 +847,10 @@ Lemma rel_rows (sc : pattern -> pattern -> Q) (acc : list (nat * nat * (pattern 
   map (fun a => qmaxl (map (fun b => sc (fst a) (snd b)) (map snd acc))) (map snd acc)
   = row_maxes (fun a b : nat * nat * (pattern * pattern) => sc (fst (snd a)) (snd (snd b))) acc acc.
 Proof. unfold row_maxes. rewrite map_map. apply map_ext. intros b. rewrite map_map. reflexivity. Qed.
-Theorem occurrence_FPR_tie : forall ref est thres m, seqb m cardinality_score = true ->
-  run gen_occurrence_FPR [v_pats ref; v_pats est; VFloat thres; VStr m] = occurrence_pv ref est thres.
+Theorem occurrence_FPR_tie_g : forall ref est thres m, seqb m cardinality_score = true ->
+  runx gen_occurrence_FPR [v_pats ref; v_pats est; VFloat thres; VStr m] = occurrence_pv ref est thres.
 Proof.
-  intros ref est thres m Hm. unfold run, run_fun. cbn [length f_params gen_occurrence_FPR Nat.eqb]. unfold exec_block.
+  intros ref est thres m Hm. unfold run_fun. cbn [length f_params gen_occurrence_FPR Nat.eqb]. unfold exec_block.
   rewrite (cut_at_for (f_body gen_occurrence_FPR)) at 1.
   rewrite run_block_app. remember (from_for (f_body gen_occurrence_FPR)) as tl eqn:Etl.
   unfold occurrence_pv, occurrence_FPR.
@@ -878,7 +895,6 @@ Proof.
     cbv zeta. rewrite (rel_cols (occ_P thres) acc), (rel_rows (occ_R thres) acc). fold scP scR. unfold np_fpr, mk_fpr.
     destruct (qeqb (qmean (col_maxes scP acc acc)) 0 && qeqb (qmean (row_maxes scR acc acc)) 0); reflexivity.
 Qed.
-Print Assumptions occurrence_FPR_tie.
 
 
 (* ---------- standard_FPR ---------- *)
@@ -1042,10 +1058,10 @@ Proof.
 Qed.
 Lemma n_onset_len ps : Nat.eqb (n_onset_midi ps) 0 = false -> Nat.eqb (length ps) 0 = false.
 Proof. intros H. destruct ps; [discriminate H|reflexivity]. Qed.
-Theorem standard_FPR_tie : forall ref est tol,
-  run gen_standard_FPR [v_pats ref; v_pats est; VFloat tol] = standard_pv ref est tol.
+Theorem standard_FPR_tie_g : forall ref est tol,
+  runx gen_standard_FPR [v_pats ref; v_pats est; VFloat tol] = standard_pv ref est tol.
 Proof.
-  intros ref est tol. unfold run, run_fun. cbn [length f_params gen_standard_FPR Nat.eqb]. unfold exec_block.
+  intros ref est tol. unfold run_fun. cbn [length f_params gen_standard_FPR Nat.eqb]. unfold exec_block.
   rewrite (cut_at_for (f_body gen_standard_FPR)) at 1.
   rewrite run_block_app. remember (from_for (f_body gen_standard_FPR)) as tl eqn:Etl.
   unfold standard_pv, standard_FPR.
@@ -1064,25 +1080,23 @@ Proof.
   rewrite div_int_float, !zq_nat, qnat_eqb0, (n_onset_len _ Nr). cbn.
   unfold call. sigs. cbn. rewrite ext_fm, fm_ext_py by (apply Qdiv_nonneg; apply qnat_nonneg). reflexivity.
 Qed.
-Print Assumptions standard_FPR_tie.
 
 
 (* ---------- three_layer_FPR: the nested helpers ---------- *)
 Lemma is_nil_len {A} (l : list A) : Nat.eqb (length l) 0 = Pattern.is_nil l. Proof. destruct l; reflexivity. Qed.
-Theorem first_layer_PR_tie : forall a b,
-  run gen_three_layer_FPR__compute_first_layer_PR [v_occ a; v_occ b]
+Theorem first_layer_PR_tie_g : forall a b,
+  runx gen_three_layer_FPR__compute_first_layer_PR [v_occ a; v_occ b]
   = lift (fun pr => VTup [VFloat (fst pr); VFloat (snd pr)]) (layer1_PR a b).
 Proof.
-  intros. unfold run, run_fun, layer1_PR. cbn. unfold call. sigs. cbn. rewrite ext_inter. cbn. rewrite !map_length.
+  intros. unfold run_fun, layer1_PR. cbn. unfold call. sigs. cbn.
+  destruct (ext_inter a b) as (s & -> & Ls). cbn. rewrite ?map_length, Ls.
   rewrite div_int_float, !zq_nat, qnat_eqb0, is_nil_len. destruct (Pattern.is_nil a); cbn; [reflexivity|].
   rewrite ?map_length, div_int_float, !zq_nat, qnat_eqb0, ?map_length, is_nil_len. destruct (Pattern.is_nil b); cbn; reflexivity.
 Qed.
 
-Lemma ext_first a b : pat_ext "three_layer_FPR.compute_first_layer_PR" [v_occ a; v_occ b]
+Hypothesis ext_first : forall a b, ext "three_layer_FPR.compute_first_layer_PR" [v_occ a; v_occ b]
   = lift (fun pr => VTup [VFloat (fst pr); VFloat (snd pr)]) (layer1_PR a b).
-Proof. unfold pat_ext. cbn. rewrite !d_occ_v. reflexivity. Qed.
-Lemma ext_second a b : pat_ext "three_layer_FPR.compute_second_layer_PR" [v_pat a; v_pat b] = layer2_pv a b.
-Proof. unfold pat_ext. cbn. rewrite !d_pat_v. reflexivity. Qed.
+Hypothesis ext_second : forall a b, a <> [] -> b <> [] -> ext "three_layer_FPR.compute_second_layer_PR" [v_pat a; v_pat b] = layer2_pv a b.
 Lemma layer1_PR_nonneg a b pr : layer1_PR a b = Ok pr -> (0 <= fst pr)%Q /\ (0 <= snd pr)%Q.
 Proof. unfold layer1_PR. destruct (Pattern.is_nil a || Pattern.is_nil b); [discriminate|]. intros [= <-]. cbn [fst snd].
   split; apply Qdiv_nonneg; apply qnat_nonneg. Qed.
@@ -1114,7 +1128,7 @@ Lemma cl1_inner_step pP oP sP preQ oQ postQ A D c nQ nP done rest rc0 pr0 fn0 iQ
     | Raise e => SExn e end.
 Proof.
   intros Hc Hd HA. unfold for_step, X, cl_inner_body, cl_outer_body, cl_env, cell1. cbn.
-  rewrite !qeqb_zq. cbn. rewrite !seq_item_mid. cbn. unfold call. sigs. cbn. rewrite ext_first.
+  rewrite ?qeqb_zq. cbn. rewrite !seq_item_mid. cbn. unfold call. sigs. cbn. rewrite ext_first.
   destruct (layer1_PR oP oQ) as [[p r]|e] eqn:E1; cbn; [|exists rc0, pr0; reflexivity].
   destruct (layer1_PR_nonneg _ _ _ E1) as [Hp Hr]. cbn [fst snd] in Hp, Hr.
   unfold call. sigs. cbn. rewrite ext_fm, (fm_ext_py p r Hp Hr). cbn.
@@ -1178,13 +1192,13 @@ Proof.
   cbn [app length] in E. exists rc', pr', fn', iQ', iP'. use_loop E. rewrite sfill_unit. unfold layer1_res.
   destruct (rmapM (fun o1 => rmapM (cell1 o1) q) p); reflexivity.
 Qed.
-Theorem compute_layer_1_tie : forall p q,
-  run gen_three_layer_FPR__compute_layer [v_pat p; v_pat q; VInt 1] = lift (VMat (length q)) (layer1_res p q).
+Theorem compute_layer_1_tie_g : forall p q,
+  runx gen_three_layer_FPR__compute_layer [v_pat p; v_pat q; VInt 1] = lift (VMat (length q)) (layer1_res p q).
 Proof.
-  intros p q. unfold run, run_fun. cbn [length f_params gen_three_layer_FPR__compute_layer Nat.eqb]. unfold exec_block.
+  intros p q. unfold run_fun. cbn [length f_params gen_three_layer_FPR__compute_layer Nat.eqb]. unfold exec_block.
   rewrite (cut_at_for (f_body gen_three_layer_FPR__compute_layer)) at 1.
   rewrite run_block_app. remember (from_for (f_body gen_three_layer_FPR__compute_layer)) as tl eqn:Etl.
-  cbn. rewrite !qeqb_zq. cbn. rewrite !map_length, np_zeros2. cbn.
+  cbn. rewrite ?qeqb_zq. cbn. rewrite !map_length, np_zeros2. cbn.
   subst tl. cbn. rewrite Nat2Z.id, (range_elts p 0).
   destruct (cl1_outer_loop p q (VInt (Z.of_nat (length p))) VUnbound VUnbound VUnbound VUnbound VUnbound) as (rc' & pr' & fn' & iQ' & iP' & E).
   unfold X, cl_outer_body, cl_env in E. use_loop E. destruct (layer1_res p q); reflexivity.
@@ -1208,12 +1222,11 @@ Proof.
       by (intros; apply cell1_spec).
     rewrite rmapM_guard2. destruct q; [contradiction|]. cbn [Pattern.is_nil negb andb]. rewrite orb_comm. reflexivity.
 Qed.
-Lemma ext_cl1 p q : pat_ext "three_layer_FPR.compute_layer" [v_pat p; v_pat q; VInt 1] = lift (VMat (length q)) (layer1_res p q).
-Proof. unfold pat_ext. cbn. rewrite !d_pat_v. reflexivity. Qed.
-Theorem second_layer_PR_tie : forall p q, p <> [] -> q <> [] ->
-  run gen_three_layer_FPR__compute_second_layer_PR [v_pat p; v_pat q] = layer2_pv p q.
+Hypothesis ext_cl1 : forall p q, ext "three_layer_FPR.compute_layer" [v_pat p; v_pat q; VInt 1] = lift (VMat (length q)) (layer1_res p q).
+Theorem second_layer_PR_tie_g : forall p q, p <> [] -> q <> [] ->
+  runx gen_three_layer_FPR__compute_second_layer_PR [v_pat p; v_pat q] = layer2_pv p q.
 Proof.
-  intros p q Hp Hq. unfold run, run_fun, layer2_pv. cbn. unfold call. sigs. cbn. rewrite ext_cl1.
+  intros p q Hp Hq. unfold run_fun, layer2_pv. cbn. unfold call. sigs. cbn. rewrite ext_cl1.
   replace (Pattern.is_nil p || Pattern.is_nil q) with false by (destruct p; [contradiction|]; destruct q; [contradiction|reflexivity]).
   rewrite (layer1_res_spec p q Hp Hq). destruct (existsb Pattern.is_nil p || existsb Pattern.is_nil q); cbn; [reflexivity|].
   rewrite (np_colmax layer1_F p q Hp). cbn. rewrite (np_mean_cols layer1_F p q Hq). cbn.
@@ -1235,7 +1248,7 @@ Lemma cl2_inner_step (pP : list pattern) (p : pattern) (sP preQ : list pattern) 
     | Raise e => SExn e end.
 Proof.
   intros Hc Hd HA Hp Hq. unfold for_step, X, cl_inner_body, cl_outer_body, cl_env, cell2r. cbn.
-  rewrite !qeqb_zq. cbn. rewrite !qeqb_zq. cbn. rewrite !seq_item_mid. cbn. unfold call. sigs. cbn. rewrite ext_second. unfold layer2_pv.
+  rewrite ?qeqb_zq. cbn. rewrite ?qeqb_zq. cbn. rewrite !seq_item_mid. cbn. unfold call. sigs. cbn. rewrite (ext_second _ _ Hp Hq). unfold layer2_pv.
   replace (Pattern.is_nil p || Pattern.is_nil q) with false by (destruct p; [contradiction|]; destruct q; [contradiction|reflexivity]).
   destruct (layer1_res p q) as [m|e]; cbn; [|exists rc0, pr0; reflexivity].
   unfold call. sigs. cbn. rewrite ext_fm, (fm_ext_np _ _ (proj1 (layer2_P_01 p q)) (proj1 (layer2_R_01 p q))).
@@ -1300,10 +1313,10 @@ Proof.
   cbn [app length] in E. exists rc', pr', fn', iQ', iP'. use_loop E. rewrite sfill_unit. unfold layer2_res.
   destruct (rmapM (fun p => rmapM (cell2r p) est) ref); reflexivity.
 Qed.
-Theorem compute_layer_2_tie : forall ref est, (forall p, In p ref -> p <> []) -> (forall q, In q est -> q <> []) ->
-  run gen_three_layer_FPR__compute_layer [v_pats ref; v_pats est; VInt 2] = lift (VMat (length est)) (layer2_res ref est).
+Theorem compute_layer_2_tie_g : forall ref est, (forall p, In p ref -> p <> []) -> (forall q, In q est -> q <> []) ->
+  runx gen_three_layer_FPR__compute_layer [v_pats ref; v_pats est; VInt 2] = lift (VMat (length est)) (layer2_res ref est).
 Proof.
-  intros ref est Hr He. unfold run, run_fun. cbn [length f_params gen_three_layer_FPR__compute_layer Nat.eqb]. unfold exec_block.
+  intros ref est Hr He. unfold run_fun. cbn [length f_params gen_three_layer_FPR__compute_layer Nat.eqb]. unfold exec_block.
   rewrite (cut_at_for (f_body gen_three_layer_FPR__compute_layer)) at 1.
   rewrite run_block_app. remember (from_for (f_body gen_three_layer_FPR__compute_layer)) as tl eqn:Etl.
   cbn. rewrite ?qeqb_zq. cbn. rewrite ?qeqb_zq. cbn. rewrite !map_length, np_zeros2. cbn.
@@ -1321,8 +1334,8 @@ Proof. intros Hp Hq. unfold cell2, cell2r. destruct p; [contradiction|]. destruc
   destruct (layer1_res _ _); reflexivity. Qed.
 Lemma layer2_out_res ref est : (forall p, In p ref -> p <> []) -> (forall q, In q est -> q <> []) -> layer2_out ref est = of_res (layer2_res ref est).
 Proof. intros Hr He. unfold layer2_out, layer2_res. apply mapM_of_res. intros p Hp. apply mapM_of_res. intros q Hq. apply cell2_res; auto. Qed.
-Lemma ext_cl2 ref est : pat_ext "three_layer_FPR.compute_layer" [v_pats ref; v_pats est; VInt 2] = (m <~ layer2_out ref est ;; OK (VMat (length est) m)).
-Proof. unfold pat_ext. cbn. rewrite !d_pats_v. reflexivity. Qed.
+Hypothesis ext_cl2 : forall (ref est : list pattern), (forall p, In p ref -> p <> []) -> (forall q, In q est -> q <> []) ->
+  ext "three_layer_FPR.compute_layer" [v_pats ref; v_pats est; VInt 2] = lift (VMat (length est)) (layer2_res ref est).
 Lemma cell2r_spec p q : p <> [] -> q <> [] ->
   cell2r p q = if existsb Pattern.is_nil p || existsb Pattern.is_nil q then Raise ZeroDivisionError else Ok (layer2_F p q).
 Proof. intros Hp Hq. unfold cell2r. rewrite (layer1_res_spec p q Hp Hq). destruct (existsb Pattern.is_nil p || existsb Pattern.is_nil q); reflexivity. Qed.
@@ -1337,10 +1350,10 @@ Proof.
     rewrite rmapM_guard2. destruct est; [contradiction|]. cbn [Pattern.is_nil negb andb]. rewrite orb_comm. reflexivity.
 Qed.
 
-Theorem three_layer_FPR_tie : forall ref est,
-  run gen_three_layer_FPR [v_pats ref; v_pats est] = three_layer_pv ref est.
+Theorem three_layer_FPR_tie_g : forall ref est,
+  runx gen_three_layer_FPR [v_pats ref; v_pats est] = three_layer_pv ref est.
 Proof.
-  intros ref est. unfold run, run_fun, three_layer_pv, three_layer_FPR. cbn. unfold call. sigs. cbn. rewrite ext_validate.
+  intros ref est. unfold run_fun, three_layer_pv, three_layer_FPR. cbn. unfold call. sigs. cbn. rewrite ext_validate.
   destruct (validate ref est) as [[]|e] eqn:Ev; cbn; [|reflexivity].
   unfold call. sigs. cbn. rewrite !ext_n_onset. cbn.
   rewrite !zq_nat. change (zq 0) with 0%Q. rewrite !qnat_eqb0. unfold no_notes.
@@ -1348,7 +1361,7 @@ Proof.
   destruct (Nat.eqb (n_onset_midi est) 0) eqn:Ne; cbn; [reflexivity|].
   destruct (validate_ok_nonempty ref est Ev) as [Hr He].
   pose proof (n_onset_nonempty _ Nr) as Hr0. pose proof (n_onset_nonempty _ Ne) as He0.
-  unfold call. sigs. cbn. rewrite ext_cl2, (layer2_out_res ref est Hr He), (layer2_res_spec ref est Hr He Hr0 He0).
+  unfold call. sigs. cbn. rewrite (ext_cl2 ref est Hr He), (layer2_res_spec ref est Hr He Hr0 He0).
   destruct (tl_raises ref est); cbn; [reflexivity|].
   rewrite (np_colmax layer2_F ref est Hr0). cbn. rewrite (np_mean_cols layer2_F ref est He0). cbn.
   rewrite (np_rowmax layer2_F ref est He0). cbn. rewrite (np_mean_rows layer2_F ref est Hr0). cbn.
@@ -1357,7 +1370,6 @@ Proof.
   rewrite (fm_ext_np _ _ Hp Hq). unfold np_fpr, mk_fpr.
   destruct (qeqb (qmean (col_maxes layer2_F ref est)) 0 && qeqb (qmean (row_maxes layer2_F ref est)) 0); reflexivity.
 Qed.
-Print Assumptions three_layer_FPR_tie.
 
 
 (* ---------- the first-n metrics ---------- *)
@@ -1376,15 +1388,13 @@ Lemma first_n_map {A B} (f : A -> B) n l : first_n n (map f l) = map f (first_n 
 Proof. unfold first_n. rewrite map_length. destruct (n <? 0)%Z; apply firstn_map. Qed.
 Lemma slice_pats n est : VList (slice_hi (Z.min (Z.of_nat (length (map v_pat est))) n) (map v_pat est)) = v_pats (first_n n est).
 Proof. rewrite slice_first_n, first_n_map. reflexivity. Qed.
-Lemma ext_three_layer r e : pat_ext "three_layer_FPR" [v_pats r; v_pats e] = three_layer_pv r e.
-Proof. unfold pat_ext. cbn. rewrite !d_pats_v. reflexivity. Qed.
-Lemma ext_establishment r e m : seqb m cardinality_score = true -> pat_ext "establishment_FPR" [v_pats r; v_pats e; VStr m] = establishment_pv r e.
-Proof. intros Hm. unfold pat_ext. cbn. rewrite Hm, !d_pats_v. reflexivity. Qed.
+Hypothesis ext_three_layer : forall r e, ext "three_layer_FPR" [v_pats r; v_pats e] = three_layer_pv r e.
+Hypothesis ext_establishment : forall r e m, seqb m cardinality_score = true -> ext "establishment_FPR" [v_pats r; v_pats e; VStr m] = establishment_pv r e.
 
-Theorem first_n_three_layer_P_tie : forall ref est n,
-  run gen_first_n_three_layer_P [v_pats ref; v_pats est; VInt n] = first_n_P_pv ref est n.
+Theorem first_n_three_layer_P_tie_g : forall ref est n,
+  runx gen_first_n_three_layer_P [v_pats ref; v_pats est; VInt n] = first_n_P_pv ref est n.
 Proof.
-  intros ref est n. unfold run, run_fun, first_n_P_pv, first_n_three_layer_P. cbn. unfold call. sigs. cbn. rewrite ext_validate.
+  intros ref est n. unfold run_fun, first_n_P_pv, first_n_three_layer_P. cbn. unfold call. sigs. cbn. rewrite ext_validate.
   destruct (validate ref est) as [[]|e] eqn:Ev; cbn; [|reflexivity].
   unfold call. sigs. cbn. rewrite !ext_n_onset. cbn.
   rewrite !zq_nat. change (zq 0) with 0%Q. rewrite !qnat_eqb0. fold (no_notes ref est).
@@ -1396,10 +1406,10 @@ Proof.
     + unfold three_layer_FPR. rewrite N2. destruct (validate ref (first_n n est)) as [[]|e]; reflexivity.
     + destruct (three_layer_FPR ref (first_n n est)) as [[[f p] r]|e]; reflexivity.
 Qed.
-Theorem first_n_target_proportion_R_tie : forall ref est n,
-  run gen_first_n_target_proportion_R [v_pats ref; v_pats est; VInt n] = first_n_R_pv ref est n.
+Theorem first_n_target_proportion_R_tie_g : forall ref est n,
+  runx gen_first_n_target_proportion_R [v_pats ref; v_pats est; VInt n] = first_n_R_pv ref est n.
 Proof.
-  intros ref est n. unfold run, run_fun, first_n_R_pv, first_n_target_proportion_R. cbn. unfold call. sigs. cbn. rewrite ext_validate.
+  intros ref est n. unfold run_fun, first_n_R_pv, first_n_target_proportion_R. cbn. unfold call. sigs. cbn. rewrite ext_validate.
   destruct (validate ref est) as [[]|e] eqn:Ev; cbn; [|reflexivity].
   unfold call. sigs. cbn. rewrite !ext_n_onset. cbn.
   rewrite !zq_nat. change (zq 0) with 0%Q. rewrite !qnat_eqb0. fold (no_notes ref est).
@@ -1411,8 +1421,6 @@ Proof.
     + unfold establishment_FPR. rewrite N2. destruct (validate ref (first_n n est)) as [[]|e]; reflexivity.
     + destruct (establishment_FPR ref (first_n n est)) as [[[f p] r]|e]; reflexivity.
 Qed.
-Print Assumptions first_n_three_layer_P_tie.
-Print Assumptions first_n_target_proportion_R_tie.
 
 
 (* ---------- the numeric view: (F, P, R) of the model, whatever the scalar types ---------- *)
@@ -1420,33 +1428,33 @@ Lemma view_np t : fpr_view (OK (np_fpr t)) = OK t.
 Proof. destruct t as [[f p] r]. unfold np_fpr, fpr_view. cbn [obind]. destruct (qeqb p 0 && qeqb r 0); reflexivity. Qed.
 Lemma view_py t : fpr_view (OK (py_fpr t)) = OK t.
 Proof. destruct t as [[f p] r]. reflexivity. Qed.
-Corollary standard_FPR_view : forall ref est tol,
-  fpr_view (run gen_standard_FPR [v_pats ref; v_pats est; VFloat tol]) = of_res (standard_FPR ref est tol).
-Proof. intros. rewrite standard_FPR_tie. unfold standard_pv, standard_FPR.
+Corollary standard_FPR_view_g : forall ref est tol,
+  fpr_view (runx gen_standard_FPR [v_pats ref; v_pats est; VFloat tol]) = of_res (standard_FPR ref est tol).
+Proof. intros. rewrite standard_FPR_tie_g. unfold standard_pv, standard_FPR.
   destruct (validate ref est) as [[]|e]; cbn [bind]; [|reflexivity]. destruct (no_notes ref est); [reflexivity|].
   destruct (count_matches tol ref est); cbn [bind]; reflexivity. Qed.
-Corollary establishment_FPR_view : forall ref est m, seqb m cardinality_score = true ->
-  fpr_view (run gen_establishment_FPR [v_pats ref; v_pats est; VStr m]) = of_res (establishment_FPR ref est).
-Proof. intros ref est m Hm. rewrite (establishment_FPR_tie ref est m Hm). unfold establishment_pv, establishment_FPR.
+Corollary establishment_FPR_view_g : forall ref est m, seqb m cardinality_score = true ->
+  fpr_view (runx gen_establishment_FPR [v_pats ref; v_pats est; VStr m]) = of_res (establishment_FPR ref est).
+Proof. intros ref est m Hm. rewrite (establishment_FPR_tie_g ref est m Hm). unfold establishment_pv, establishment_FPR.
   destruct (validate ref est) as [[]|e]; cbn [bind]; [|reflexivity]. destruct (no_notes ref est); [reflexivity|].
   destruct (sm_raises ref est); [reflexivity|]. apply view_np. Qed.
-Corollary occurrence_FPR_view : forall ref est thres m, seqb m cardinality_score = true ->
-  fpr_view (run gen_occurrence_FPR [v_pats ref; v_pats est; VFloat thres; VStr m]) = of_res (occurrence_FPR ref est thres).
-Proof. intros ref est thres m Hm. rewrite (occurrence_FPR_tie ref est thres m Hm). unfold occurrence_pv, occurrence_FPR.
+Corollary occurrence_FPR_view_g : forall ref est thres m, seqb m cardinality_score = true ->
+  fpr_view (runx gen_occurrence_FPR [v_pats ref; v_pats est; VFloat thres; VStr m]) = of_res (occurrence_FPR ref est thres).
+Proof. intros ref est thres m Hm. rewrite (occurrence_FPR_tie_g ref est thres m Hm). unfold occurrence_pv, occurrence_FPR.
   destruct (validate ref est) as [[]|e]; cbn [bind]; [|reflexivity]. destruct (no_notes ref est); [reflexivity|].
   destruct (sm_raises ref est); [reflexivity|]. cbv zeta. destruct (Pattern.is_nil (rel_pairs thres ref est)); [vm_compute; reflexivity|]. apply view_np. Qed.
-Corollary three_layer_FPR_view : forall ref est,
-  fpr_view (run gen_three_layer_FPR [v_pats ref; v_pats est]) = of_res (three_layer_FPR ref est).
-Proof. intros ref est. rewrite three_layer_FPR_tie. unfold three_layer_pv, three_layer_FPR.
+Corollary three_layer_FPR_view_g : forall ref est,
+  fpr_view (runx gen_three_layer_FPR [v_pats ref; v_pats est]) = of_res (three_layer_FPR ref est).
+Proof. intros ref est. rewrite three_layer_FPR_tie_g. unfold three_layer_pv, three_layer_FPR.
   destruct (validate ref est) as [[]|e]; cbn [bind]; [|reflexivity]. destruct (no_notes ref est); [reflexivity|].
   destruct (tl_raises ref est); [reflexivity|]. apply view_np. Qed.
-Corollary first_n_three_layer_P_view : forall ref est n,
-  num_view (run gen_first_n_three_layer_P [v_pats ref; v_pats est; VInt n]) = of_res (first_n_three_layer_P ref est n).
-Proof. intros. rewrite first_n_three_layer_P_tie. unfold first_n_P_pv. destruct (first_n_three_layer_P ref est n); [|reflexivity].
+Corollary first_n_three_layer_P_view_g : forall ref est n,
+  num_view (runx gen_first_n_three_layer_P [v_pats ref; v_pats est; VInt n]) = of_res (first_n_three_layer_P ref est n).
+Proof. intros. rewrite first_n_three_layer_P_tie_g. unfold first_n_P_pv. destruct (first_n_three_layer_P ref est n); [|reflexivity].
   destruct (no_notes ref est || no_notes ref (first_n n est)); reflexivity. Qed.
-Corollary first_n_target_proportion_R_view : forall ref est n,
-  num_view (run gen_first_n_target_proportion_R [v_pats ref; v_pats est; VInt n]) = of_res (first_n_target_proportion_R ref est n).
-Proof. intros. rewrite first_n_target_proportion_R_tie. unfold first_n_R_pv. destruct (first_n_target_proportion_R ref est n); [|reflexivity].
+Corollary first_n_target_proportion_R_view_g : forall ref est n,
+  num_view (runx gen_first_n_target_proportion_R [v_pats ref; v_pats est; VInt n]) = of_res (first_n_target_proportion_R ref est n).
+Proof. intros. rewrite first_n_target_proportion_R_tie_g. unfold first_n_R_pv. destruct (first_n_target_proportion_R ref est n); [|reflexivity].
   destruct (no_notes ref est || no_notes ref (first_n n est)); reflexivity. Qed.
 (* the default arguments reach the bodies through the signatures read from the source *)
 Example cs_is_default : seqb cardinality_score cardinality_score = true. Proof. reflexivity. Qed.
@@ -1474,7 +1482,130 @@ Proof. vm_compute. reflexivity. Qed.
    handed) returns a fresh object on every path, by the translator's analysis *)
 Theorem fresh_callees : existsb (String.eqb "_compute_score_matrix") pattern_returns_fresh = true.
 Proof. vm_compute. reflexivity. Qed.
+(* what is proved about the model holds of the translated code: e.g. the range of the establishment scores (C01) *)
+Corollary establishment_FPR_range_of_code_g : forall ref est m f p r, seqb m cardinality_score = true ->
+  fpr_view (runx gen_establishment_FPR [v_pats ref; v_pats est; VStr m]) = OK (f, p, r) ->
+  (0 <= f <= 1 /\ 0 <= p <= 1 /\ 0 <= r <= 1)%Q.
+Proof. intros ref est m f p r Hm H. rewrite (establishment_FPR_view_g ref est m Hm) in H.
+  destruct (establishment_FPR ref est) as [t|e] eqn:E; [|discriminate H]. injection H as ->. exact (establishment_range ref est f p r E). Qed.
 
+End Ties.
+
+(* ---------- first instance: the callees are the functions of the model ---------- *)
+Lemma pe_inter a b : exists s, pat_ext "_occurrence_intersection" [v_occ a; v_occ b] = OK (VSet s) /\ length s = inter_count a b.
+Proof. exists (map v_note (inter_set a b)). unfold pat_ext. cbn. rewrite !d_occ_v, map_length. split; reflexivity. Qed.
+Lemma pe_validate r e : pat_ext "validate" [v_pats r; v_pats e] = lift (fun _ => VNone) (validate r e).
+Proof. unfold pat_ext. cbn. rewrite !d_pats_v. reflexivity. Qed.
+Lemma pe_n_onset ps : pat_ext "_n_onset_midi" [v_pats ps] = OK (VInt (Z.of_nat (n_onset_midi ps))).
+Proof. unfold pat_ext. cbn. rewrite d_pats_v. reflexivity. Qed.
+Lemma pe_csm p q m : seqb m cardinality_score = true ->
+  pat_ext "_compute_score_matrix" [v_pat p; v_pat q; VStr m] = lift (VMat (length q)) (score_matrix_res p q).
+Proof. intros Hm. unfold pat_ext. cbn. rewrite Hm, !d_pat_v. reflexivity. Qed.
+Lemma pe_fm p r b : pat_ext "util.f_measure" [p; r; b] = fm_ext p r b.
+Proof. reflexivity. Qed.
+Lemma pe_first a b : pat_ext "three_layer_FPR.compute_first_layer_PR" [v_occ a; v_occ b]
+  = lift (fun pr => VTup [VFloat (fst pr); VFloat (snd pr)]) (layer1_PR a b).
+Proof. unfold pat_ext. cbn. rewrite !d_occ_v. reflexivity. Qed.
+Lemma pe_second a b : a <> [] -> b <> [] -> pat_ext "three_layer_FPR.compute_second_layer_PR" [v_pat a; v_pat b] = layer2_pv a b.
+Proof. intros _ _. unfold pat_ext. cbn. rewrite !d_pat_v. reflexivity. Qed.
+Lemma pe_cl1 p q : pat_ext "three_layer_FPR.compute_layer" [v_pat p; v_pat q; VInt 1] = lift (VMat (length q)) (layer1_res p q).
+Proof. unfold pat_ext. cbn. rewrite !d_pat_v. reflexivity. Qed.
+Lemma pe_cl2 (ref est : list pattern) : (forall p, In p ref -> p <> []) -> (forall q, In q est -> q <> []) ->
+  pat_ext "three_layer_FPR.compute_layer" [v_pats ref; v_pats est; VInt 2] = lift (VMat (length est)) (layer2_res ref est).
+Proof. intros Hr He. unfold pat_ext. cbn. rewrite !d_pats_v, (layer2_out_res ref est Hr He). destruct (layer2_res ref est); reflexivity. Qed.
+Lemma pe_three_layer r e : pat_ext "three_layer_FPR" [v_pats r; v_pats e] = three_layer_pv r e.
+Proof. unfold pat_ext. cbn. rewrite !d_pats_v. reflexivity. Qed.
+Lemma pe_establishment r e m : seqb m cardinality_score = true -> pat_ext "establishment_FPR" [v_pats r; v_pats e; VStr m] = establishment_pv r e.
+Proof. intros Hm. unfold pat_ext. cbn. rewrite Hm, !d_pats_v. reflexivity. Qed.
+Theorem n_onset_midi_tie : forall ps, run gen__n_onset_midi [v_pats ps] = OK (VInt (Z.of_nat (n_onset_midi ps))).
+Proof. intros. eapply (n_onset_midi_tie_g pat_ext); eauto using pe_inter, pe_validate, pe_n_onset, pe_csm, pe_fm, pe_first, pe_second, pe_cl1, pe_cl2, pe_three_layer, pe_establishment. Qed.
+Theorem occurrence_intersection_tie : forall P Qo, exists s,
+  run gen__occurrence_intersection [v_occ P; v_occ Qo] = OK (VSet (map v_note s)) /\ map canon s = inter_set P Qo.
+Proof. intros. eapply (occurrence_intersection_tie_g pat_ext); eauto using pe_inter, pe_validate, pe_n_onset, pe_csm, pe_fm, pe_first, pe_second, pe_cl1, pe_cl2, pe_three_layer, pe_establishment. Qed.
+Theorem occurrence_intersection_len : forall P Qo, exists s,
+  run gen__occurrence_intersection [v_occ P; v_occ Qo] = OK (VSet s) /\ Datatypes.length s = inter_count P Qo.
+Proof. intros. eapply (occurrence_intersection_len_g pat_ext); eauto using pe_inter, pe_validate, pe_n_onset, pe_csm, pe_fm, pe_first, pe_second, pe_cl1, pe_cl2, pe_three_layer, pe_establishment. Qed.
+Theorem compute_score_matrix_tie : forall p q m, seqb m cardinality_score = true ->
+  run gen__compute_score_matrix [v_pat p; v_pat q; VStr m] = lift (VMat (length q)) (score_matrix_res p q).
+Proof. intros. eapply (compute_score_matrix_tie_g pat_ext); eauto using pe_inter, pe_validate, pe_n_onset, pe_csm, pe_fm, pe_first, pe_second, pe_cl1, pe_cl2, pe_three_layer, pe_establishment. Qed.
+Theorem compute_score_matrix_other_metric : forall oP p oQ q m, seqb m cardinality_score = false ->
+  run gen__compute_score_matrix [v_pat (oP :: p); v_pat (oQ :: q); VStr m] = EXN ValueError.
+Proof. intros. eapply (compute_score_matrix_other_metric_g pat_ext); eauto using pe_inter, pe_validate, pe_n_onset, pe_csm, pe_fm, pe_first, pe_second, pe_cl1, pe_cl2, pe_three_layer, pe_establishment. Qed.
+Theorem establishment_FPR_tie : forall ref est m, seqb m cardinality_score = true ->
+  run gen_establishment_FPR [v_pats ref; v_pats est; VStr m] = establishment_pv ref est.
+Proof. intros. eapply (establishment_FPR_tie_g pat_ext); eauto using pe_inter, pe_validate, pe_n_onset, pe_csm, pe_fm, pe_first, pe_second, pe_cl1, pe_cl2, pe_three_layer, pe_establishment. Qed.
+Theorem occurrence_FPR_tie : forall ref est thres m, seqb m cardinality_score = true ->
+  run gen_occurrence_FPR [v_pats ref; v_pats est; VFloat thres; VStr m] = occurrence_pv ref est thres.
+Proof. intros. eapply (occurrence_FPR_tie_g pat_ext); eauto using pe_inter, pe_validate, pe_n_onset, pe_csm, pe_fm, pe_first, pe_second, pe_cl1, pe_cl2, pe_three_layer, pe_establishment. Qed.
+Theorem standard_FPR_tie : forall ref est tol,
+  run gen_standard_FPR [v_pats ref; v_pats est; VFloat tol] = standard_pv ref est tol.
+Proof. intros. eapply (standard_FPR_tie_g pat_ext); eauto using pe_inter, pe_validate, pe_n_onset, pe_csm, pe_fm, pe_first, pe_second, pe_cl1, pe_cl2, pe_three_layer, pe_establishment. Qed.
+Theorem first_layer_PR_tie : forall a b,
+  run gen_three_layer_FPR__compute_first_layer_PR [v_occ a; v_occ b]
+  = lift (fun pr => VTup [VFloat (fst pr); VFloat (snd pr)]) (layer1_PR a b).
+Proof. intros. eapply (first_layer_PR_tie_g pat_ext); eauto using pe_inter, pe_validate, pe_n_onset, pe_csm, pe_fm, pe_first, pe_second, pe_cl1, pe_cl2, pe_three_layer, pe_establishment. Qed.
+Theorem compute_layer_1_tie : forall p q,
+  run gen_three_layer_FPR__compute_layer [v_pat p; v_pat q; VInt 1] = lift (VMat (length q)) (layer1_res p q).
+Proof. intros. eapply (compute_layer_1_tie_g pat_ext); eauto using pe_inter, pe_validate, pe_n_onset, pe_csm, pe_fm, pe_first, pe_second, pe_cl1, pe_cl2, pe_three_layer, pe_establishment. Qed.
+Theorem second_layer_PR_tie : forall p q, p <> [] -> q <> [] ->
+  run gen_three_layer_FPR__compute_second_layer_PR [v_pat p; v_pat q] = layer2_pv p q.
+Proof. intros. eapply (second_layer_PR_tie_g pat_ext); eauto using pe_inter, pe_validate, pe_n_onset, pe_csm, pe_fm, pe_first, pe_second, pe_cl1, pe_cl2, pe_three_layer, pe_establishment. Qed.
+Theorem compute_layer_2_tie : forall ref est, (forall p, In p ref -> p <> []) -> (forall q, In q est -> q <> []) ->
+  run gen_three_layer_FPR__compute_layer [v_pats ref; v_pats est; VInt 2] = lift (VMat (length est)) (layer2_res ref est).
+Proof. intros. eapply (compute_layer_2_tie_g pat_ext); eauto using pe_inter, pe_validate, pe_n_onset, pe_csm, pe_fm, pe_first, pe_second, pe_cl1, pe_cl2, pe_three_layer, pe_establishment. Qed.
+Theorem three_layer_FPR_tie : forall ref est,
+  run gen_three_layer_FPR [v_pats ref; v_pats est] = three_layer_pv ref est.
+Proof. intros. eapply (three_layer_FPR_tie_g pat_ext); eauto using pe_inter, pe_validate, pe_n_onset, pe_csm, pe_fm, pe_first, pe_second, pe_cl1, pe_cl2, pe_three_layer, pe_establishment. Qed.
+Theorem first_n_three_layer_P_tie : forall ref est n,
+  run gen_first_n_three_layer_P [v_pats ref; v_pats est; VInt n] = first_n_P_pv ref est n.
+Proof. intros. eapply (first_n_three_layer_P_tie_g pat_ext); eauto using pe_inter, pe_validate, pe_n_onset, pe_csm, pe_fm, pe_first, pe_second, pe_cl1, pe_cl2, pe_three_layer, pe_establishment. Qed.
+Theorem first_n_target_proportion_R_tie : forall ref est n,
+  run gen_first_n_target_proportion_R [v_pats ref; v_pats est; VInt n] = first_n_R_pv ref est n.
+Proof. intros. eapply (first_n_target_proportion_R_tie_g pat_ext); eauto using pe_inter, pe_validate, pe_n_onset, pe_csm, pe_fm, pe_first, pe_second, pe_cl1, pe_cl2, pe_three_layer, pe_establishment. Qed.
+Theorem standard_FPR_view : forall ref est tol,
+  fpr_view (run gen_standard_FPR [v_pats ref; v_pats est; VFloat tol]) = of_res (standard_FPR ref est tol).
+Proof. intros. eapply (standard_FPR_view_g pat_ext); eauto using pe_inter, pe_validate, pe_n_onset, pe_csm, pe_fm, pe_first, pe_second, pe_cl1, pe_cl2, pe_three_layer, pe_establishment. Qed.
+Theorem establishment_FPR_view : forall ref est m, seqb m cardinality_score = true ->
+  fpr_view (run gen_establishment_FPR [v_pats ref; v_pats est; VStr m]) = of_res (establishment_FPR ref est).
+Proof. intros. eapply (establishment_FPR_view_g pat_ext); eauto using pe_inter, pe_validate, pe_n_onset, pe_csm, pe_fm, pe_first, pe_second, pe_cl1, pe_cl2, pe_three_layer, pe_establishment. Qed.
+Theorem occurrence_FPR_view : forall ref est thres m, seqb m cardinality_score = true ->
+  fpr_view (run gen_occurrence_FPR [v_pats ref; v_pats est; VFloat thres; VStr m]) = of_res (occurrence_FPR ref est thres).
+Proof. intros. eapply (occurrence_FPR_view_g pat_ext); eauto using pe_inter, pe_validate, pe_n_onset, pe_csm, pe_fm, pe_first, pe_second, pe_cl1, pe_cl2, pe_three_layer, pe_establishment. Qed.
+Theorem three_layer_FPR_view : forall ref est,
+  fpr_view (run gen_three_layer_FPR [v_pats ref; v_pats est]) = of_res (three_layer_FPR ref est).
+Proof. intros. eapply (three_layer_FPR_view_g pat_ext); eauto using pe_inter, pe_validate, pe_n_onset, pe_csm, pe_fm, pe_first, pe_second, pe_cl1, pe_cl2, pe_three_layer, pe_establishment. Qed.
+Theorem first_n_three_layer_P_view : forall ref est n,
+  num_view (run gen_first_n_three_layer_P [v_pats ref; v_pats est; VInt n]) = of_res (first_n_three_layer_P ref est n).
+Proof. intros. eapply (first_n_three_layer_P_view_g pat_ext); eauto using pe_inter, pe_validate, pe_n_onset, pe_csm, pe_fm, pe_first, pe_second, pe_cl1, pe_cl2, pe_three_layer, pe_establishment. Qed.
+Theorem first_n_target_proportion_R_view : forall ref est n,
+  num_view (run gen_first_n_target_proportion_R [v_pats ref; v_pats est; VInt n]) = of_res (first_n_target_proportion_R ref est n).
+Proof. intros. eapply (first_n_target_proportion_R_view_g pat_ext); eauto using pe_inter, pe_validate, pe_n_onset, pe_csm, pe_fm, pe_first, pe_second, pe_cl1, pe_cl2, pe_three_layer, pe_establishment. Qed.
+Theorem establishment_FPR_range_of_code : forall ref est m f p r, seqb m cardinality_score = true ->
+  fpr_view (run gen_establishment_FPR [v_pats ref; v_pats est; VStr m]) = OK (f, p, r) ->
+  (0 <= f <= 1 /\ 0 <= p <= 1 /\ 0 <= r <= 1)%Q.
+Proof. intros. eapply (establishment_FPR_range_of_code_g pat_ext); eauto using pe_inter, pe_validate, pe_n_onset, pe_csm, pe_fm, pe_first, pe_second, pe_cl1, pe_cl2, pe_three_layer, pe_establishment. Qed.
+Print Assumptions n_onset_midi_tie.
+Print Assumptions occurrence_intersection_tie.
+Print Assumptions occurrence_intersection_len.
+Print Assumptions compute_score_matrix_tie.
+Print Assumptions compute_score_matrix_other_metric.
+Print Assumptions establishment_FPR_tie.
+Print Assumptions occurrence_FPR_tie.
+Print Assumptions standard_FPR_tie.
+Print Assumptions first_layer_PR_tie.
+Print Assumptions compute_layer_1_tie.
+Print Assumptions second_layer_PR_tie.
+Print Assumptions compute_layer_2_tie.
+Print Assumptions three_layer_FPR_tie.
+Print Assumptions first_n_three_layer_P_tie.
+Print Assumptions first_n_target_proportion_R_tie.
+Print Assumptions standard_FPR_view.
+Print Assumptions establishment_FPR_view.
+Print Assumptions occurrence_FPR_view.
+Print Assumptions three_layer_FPR_view.
+Print Assumptions first_n_three_layer_P_view.
+Print Assumptions first_n_target_proportion_R_view.
+Print Assumptions establishment_FPR_range_of_code.
 
 (* ---------- the generated programs, run on one concrete annotation (the values real mir_eval returns on it) ---------- *)
 Definition ex_ref : list pattern := [[[(0, 60); (1, 62); (2, 64)]; [(10, 60); (11, 62); (12, 64)]]; [[(0, 60); (1, 61)]]]%Q.
@@ -1517,3 +1648,90 @@ Proof. vm_compute. reflexivity. Qed.
 (* uninitialised memory is not a value: np.empty gives one only when the array has no element *)
 Example ex_np_empty : builtin "np.empty" [VTup [VInt 2; VInt 2; VInt 2]] [] = UNM /\ builtin "np.empty" [VTup [VInt 0; VInt 2]] [("dtype", VTy "int")]%string = OK (VIMat 2 []).
 Proof. split; reflexivity. Qed.
+
+
+(* ---------- second instance: the callees are the generated programs themselves ----------
+   [prog_ext n] runs the translated body of the function called, its own calls being answered by [prog_ext (n - 1)]
+   ([n]: a bound on the depth of calls, 6 is enough for the whole module); only pattern.validate and util.f_measure, which are
+   tied to the model elsewhere, keep the model's meaning. *)
+Fixpoint assoc_fun (f : string) (l : list (string * fdef)) : option fdef :=
+  match l with [] => None | (g, d) :: t => if String.eqb f g then Some d else assoc_fun f t end.
+Fixpoint prog_ext (n : nat) (f : string) (vs : list pv) : out pv :=
+  match n with
+  | O => UNM
+  | S k => if String.eqb f "validate" || String.eqb f "util.f_measure" then pat_ext f vs
+           else match assoc_fun f pattern_funs with
+                | Some fd => run_fun pat_sigs (prog_ext k) fd vs
+                | None => UNM end
+  end.
+Lemma px_validate k r e : prog_ext (S k) "validate" [v_pats r; v_pats e] = lift (fun _ => VNone) (validate r e).
+Proof. exact (pe_validate r e). Qed.
+Lemma px_fm k p r b : prog_ext (S k) "util.f_measure" [p; r; b] = fm_ext p r b.
+Proof. reflexivity. Qed.
+Lemma px_n_onset k ps : prog_ext (S k) "_n_onset_midi" [v_pats ps] = OK (VInt (Z.of_nat (n_onset_midi ps))).
+Proof. exact (n_onset_midi_tie_g (prog_ext k) ps). Qed.
+Lemma px_inter k a b : exists s, prog_ext (S k) "_occurrence_intersection" [v_occ a; v_occ b] = OK (VSet s) /\ length s = inter_count a b.
+Proof. destruct (occurrence_intersection_tie_g (prog_ext k) a b) as (s & E & H). exists (map v_note s). split; [exact E|].
+  unfold inter_count. rewrite <- H, !map_length. reflexivity. Qed.
+Lemma px_csm k p q m : seqb m cardinality_score = true ->
+  prog_ext (S (S k)) "_compute_score_matrix" [v_pat p; v_pat q; VStr m] = lift (VMat (length q)) (score_matrix_res p q).
+Proof. exact (compute_score_matrix_tie_g (prog_ext (S k)) (px_inter k) p q m). Qed.
+Lemma px_first k a b : prog_ext (S (S k)) "three_layer_FPR.compute_first_layer_PR" [v_occ a; v_occ b]
+  = lift (fun pr => VTup [VFloat (fst pr); VFloat (snd pr)]) (layer1_PR a b).
+Proof. exact (first_layer_PR_tie_g (prog_ext (S k)) (px_inter k) a b). Qed.
+Lemma px_cl1 k p q : prog_ext (S (S (S k))) "three_layer_FPR.compute_layer" [v_pat p; v_pat q; VInt 1] = lift (VMat (length q)) (layer1_res p q).
+Proof. exact (compute_layer_1_tie_g (prog_ext (S (S k))) (px_fm (S k)) (px_first k) p q). Qed.
+Lemma px_second k (p q : pattern) : p <> [] -> q <> [] ->
+  prog_ext (S (S (S (S k)))) "three_layer_FPR.compute_second_layer_PR" [v_pat p; v_pat q] = layer2_pv p q.
+Proof. exact (second_layer_PR_tie_g (prog_ext (S (S (S k)))) (px_cl1 k) p q). Qed.
+Lemma px_cl2 k (ref est : list pattern) : (forall p, In p ref -> p <> []) -> (forall q, In q est -> q <> []) ->
+  prog_ext (5 + k) "three_layer_FPR.compute_layer" [v_pats ref; v_pats est; VInt 2] = lift (VMat (length est)) (layer2_res ref est).
+Proof. exact (compute_layer_2_tie_g (prog_ext (4 + k)) (px_fm (3 + k)) (px_second k) ref est). Qed.
+Lemma px_three_layer k r e : prog_ext (6 + k) "three_layer_FPR" [v_pats r; v_pats e] = three_layer_pv r e.
+Proof. exact (three_layer_FPR_tie_g (prog_ext (5 + k)) (px_validate (4 + k)) (px_n_onset (4 + k)) (px_fm (4 + k)) (px_cl2 k) r e). Qed.
+Lemma px_establishment k r e m : seqb m cardinality_score = true ->
+  prog_ext (3 + k) "establishment_FPR" [v_pats r; v_pats e; VStr m] = establishment_pv r e.
+Proof. exact (establishment_FPR_tie_g (prog_ext (2 + k)) (px_validate (1 + k)) (px_n_onset (1 + k)) (px_csm k) (px_fm (1 + k)) r e m). Qed.
+
+(* the ties once more, now with nothing but validate and f_measure taken from the model *)
+Theorem compute_score_matrix_closed : forall k p q m, seqb m cardinality_score = true ->
+  run_fun pat_sigs (prog_ext (1 + k)) gen__compute_score_matrix [v_pat p; v_pat q; VStr m] = lift (VMat (length q)) (score_matrix_res p q).
+Proof. intros k. exact (compute_score_matrix_tie_g (prog_ext (S k)) (px_inter k)). Qed.
+Theorem standard_FPR_closed : forall k ref est tol,
+  run_fun pat_sigs (prog_ext (1 + k)) gen_standard_FPR [v_pats ref; v_pats est; VFloat tol] = standard_pv ref est tol.
+Proof. intros k. exact (standard_FPR_tie_g (prog_ext (S k)) (px_validate k) (px_n_onset k) (px_fm k)). Qed.
+Theorem establishment_FPR_closed : forall k ref est m, seqb m cardinality_score = true ->
+  run_fun pat_sigs (prog_ext (2 + k)) gen_establishment_FPR [v_pats ref; v_pats est; VStr m] = establishment_pv ref est.
+Proof. intros k. exact (establishment_FPR_tie_g (prog_ext (2 + k)) (px_validate (1 + k)) (px_n_onset (1 + k)) (px_csm k) (px_fm (1 + k))). Qed.
+Theorem occurrence_FPR_closed : forall k ref est thres m, seqb m cardinality_score = true ->
+  run_fun pat_sigs (prog_ext (2 + k)) gen_occurrence_FPR [v_pats ref; v_pats est; VFloat thres; VStr m] = occurrence_pv ref est thres.
+Proof. intros k. exact (occurrence_FPR_tie_g (prog_ext (2 + k)) (px_validate (1 + k)) (px_n_onset (1 + k)) (px_csm k) (px_fm (1 + k))). Qed.
+Theorem three_layer_FPR_closed : forall k ref est,
+  run_fun pat_sigs (prog_ext (5 + k)) gen_three_layer_FPR [v_pats ref; v_pats est] = three_layer_pv ref est.
+Proof. intros k. exact (three_layer_FPR_tie_g (prog_ext (5 + k)) (px_validate (4 + k)) (px_n_onset (4 + k)) (px_fm (4 + k)) (px_cl2 k)). Qed.
+Theorem first_n_three_layer_P_closed : forall k ref est n,
+  run_fun pat_sigs (prog_ext (6 + k)) gen_first_n_three_layer_P [v_pats ref; v_pats est; VInt n] = first_n_P_pv ref est n.
+Proof. intros k. exact (first_n_three_layer_P_tie_g (prog_ext (6 + k)) (px_validate (5 + k)) (px_n_onset (5 + k)) (px_three_layer k)). Qed.
+Theorem first_n_target_proportion_R_closed : forall k ref est n,
+  run_fun pat_sigs (prog_ext (3 + k)) gen_first_n_target_proportion_R [v_pats ref; v_pats est; VInt n] = first_n_R_pv ref est n.
+Proof. intros k. exact (first_n_target_proportion_R_tie_g (prog_ext (3 + k)) (px_validate (2 + k)) (px_n_onset (2 + k)) (fun r e m H => px_establishment k r e m H)). Qed.
+(* the whole module with one bound *)
+Theorem pattern_module_closed : forall n, 6 <= n -> forall ref est thres tol k m, seqb m cardinality_score = true ->
+  let P := run_fun pat_sigs (prog_ext n) in
+  P gen_standard_FPR [v_pats ref; v_pats est; VFloat tol] = standard_pv ref est tol /\
+  P gen_establishment_FPR [v_pats ref; v_pats est; VStr m] = establishment_pv ref est /\
+  P gen_occurrence_FPR [v_pats ref; v_pats est; VFloat thres; VStr m] = occurrence_pv ref est thres /\
+  P gen_three_layer_FPR [v_pats ref; v_pats est] = three_layer_pv ref est /\
+  P gen_first_n_three_layer_P [v_pats ref; v_pats est; VInt k] = first_n_P_pv ref est k /\
+  P gen_first_n_target_proportion_R [v_pats ref; v_pats est; VInt k] = first_n_R_pv ref est k.
+Proof.
+  intros n Hn ref est thres tol k m Hm. cbv zeta.
+  replace n with (1 + (n - 1)) at 1 by lia. replace n with (2 + (n - 2)) at 2 3 by lia.
+  replace n with (5 + (n - 5)) at 4 by lia. replace n with (6 + (n - 6)) at 5 by lia. replace n with (3 + (n - 3)) at 6 by lia.
+  repeat split; [apply standard_FPR_closed|apply establishment_FPR_closed; exact Hm|apply occurrence_FPR_closed; exact Hm|
+                 apply three_layer_FPR_closed|apply first_n_three_layer_P_closed|apply first_n_target_proportion_R_closed].
+Qed.
+Example prog_ext_runs : fpr_view (run_fun pat_sigs (prog_ext 6) gen_three_layer_FPR [v_pats ex_ref; v_pats ex_est])
+  = fpr_view (run gen_three_layer_FPR [v_pats ex_ref; v_pats ex_est]).
+Proof. vm_compute. reflexivity. Qed.
+Print Assumptions pattern_module_closed.
